@@ -80,7 +80,7 @@ def parse(file_path):
 
             elif type(current_object) is MHLCreatorInfo:
                 if tag == "author":
-                    current_object.authors.append(MHLAuthor("-"))
+                    current_object.authors.append(MHLAuthor(None))
 
             # take a note where we are ina <directoryhash>
             elif type(current_object) is MHLMediaHash:
@@ -110,7 +110,7 @@ def parse(file_path):
 
                     # author
                     elif tag == "author":
-                        if current_object.authors[-1].name == "-":
+                        if current_object.authors[-1].name is None:
                             current_object.authors[-1].name = element.text
                         if current_object.authors[-1].role == None:
                             current_object.authors[-1].role = element.attrib.get("role")
@@ -376,7 +376,7 @@ def _creator_info_xml_element(hash_list: MHLHashList):
             author_element.attrib["email"] = author.email
         if author.phone != None:
             author_element.attrib["phone"] = author.phone
-        if author.name != None and author.name != "-":
+        if author.name != None:
             author_element.text = author.name
         info_element.append(author_element)
 
